@@ -110,6 +110,7 @@ func (C18) Events(env world.Env, mm mc.Model) []string {
 			add("Send:%s:%s:c2", x, t)
 		}
 	}
+	evs = append(evs, "Send:B:A:a<b&&c>d", "Send:C:name:a<b&&c>d") // contents with characters that JSON/HTML encoders like to rewrite
 	// a 32-byte recipient whose address string starts with A's address string
 	evs = append(evs, "Send:B:longA:c1", "Send:C:longA:c2")
 	// the sender spells its own (valid bech32) address in capitals
